@@ -7,6 +7,7 @@ CONSTANTS
   FixPresence = TRUE
   FixEmptyMap = TRUE
   FixSplit = TRUE
+  FixOrLast = TRUE
   Emit = FALSE
 INVARIANTS Refines RefinesSplit CarriedOver
 CHECK_DEADLOCK FALSE
